@@ -39,16 +39,16 @@ Definition v_load (f : fname) (d : defid) (v : view) : view :=
   | None => (Some d, Some f, Some [])
   end.
 
-Definition v_loadfile (f : fname) (ds : defs) (q : pname) (v : view) : view :=
+Definition v_loadfile (purge : bool) (f : fname) (ds : defs) (q : pname) (v : view) : view :=
   match get q ds with
   | Some d => if reserved q then v else v_load f d v
-  | None => if owner_is f v then v_restore (v_disassoc f v) else v
+  | None => if purge then v_remove f v else if owner_is f v then v_restore (v_disassoc f v) else v
   end.
 
-Definition vstep (q : pname) (v : view) (o : fop) : view :=
+Definition vstep (purge : bool) (q : pname) (v : view) (o : fop) : view :=
   match o with
   | OpRemove f => v_remove f v
-  | OpLoad f ds => v_loadfile f ds q v
+  | OpLoad f ds => v_loadfile purge f ds q v
   end.
 
 Definition wfm (m : mstate) : Prop := NoDup (keys (st_map m)).
@@ -150,7 +150,7 @@ Arguments v_load : simpl never.
 Arguments v_loadfile : simpl never.
 Arguments owner_is : simpl never.
 Arguments load_policy : simpl never.
-Arguments load_file : simpl never.
+Arguments load_file_gen : simpl never.
 Arguments remove_file : simpl never.
 Arguments disassociate : simpl never.
 Arguments restore_or_delete : simpl never.
@@ -322,19 +322,19 @@ Proof.
   subst m'. simpl. rewrite A, B, A', B'. repeat split; auto using wfm_restore, wfm_disassociate.
 Qed.
 
-Lemma load_file_spec : forall fs m f, wfm m -> wf_fs fs ->
+Lemma load_file_spec : forall purge fs m f, wfm m -> wf_fs fs ->
   match get f fs, get f (st_ts m) with
   | Some (t, content), Some t0 =>
       if t >? t0 then
-        st_ts (load_file fs m f) = set f t (st_ts m) /\
-        forall q, view_of (load_file fs m f) q =
-                  match content with Some ds => v_loadfile f ds q (view_of m q) | None => view_of m q end
-      else load_file fs m f = m
-  | None, Some _ => st_ts (load_file fs m f) = st_ts m /\ forall q, view_of (load_file fs m f) q = view_of m q
-  | _, None => load_file fs m f = m
-  end /\ st_files (load_file fs m f) = st_files m /\ wfm (load_file fs m f).
+        st_ts (load_file_gen purge fs m f) = set f t (st_ts m) /\
+        forall q, view_of (load_file_gen purge fs m f) q =
+                  match content with Some ds => v_loadfile purge f ds q (view_of m q) | None => view_of m q end
+      else load_file_gen purge fs m f = m
+  | None, Some _ => st_ts (load_file_gen purge fs m f) = st_ts m /\ forall q, view_of (load_file_gen purge fs m f) q = view_of m q
+  | _, None => load_file_gen purge fs m f = m
+  end /\ st_files (load_file_gen purge fs m f) = st_files m /\ wfm (load_file_gen purge fs m f).
 Proof.
-  intros fs m f Hw [_ Hfs]. unfold load_file.
+  intros purge fs m f Hw [_ Hfs]. unfold load_file_gen.
   destruct (get f fs) as [[t content]|] eqn:Ef; destruct (get f (st_ts m)) as [t0|] eqn:Et; auto.
   destruct (t >? t0); auto.
   destruct content as [ds|]; auto.
@@ -343,31 +343,56 @@ Proof.
   set (dropped := filter (fun p => negb (memZ p (keys ds))) (owned f m1)).
   assert (Hnd : NoDup (keys ds)) by (eapply Hfs; apply get_In; exact Ef).
   assert (Hw1 : wfm m1) by exact Hw.
+  assert (Hdd : NoDup dropped) by (unfold dropped; apply NoDup_filter; now apply nodup_owned).
   destruct (frame_fold_load_policy f ds m1) as (A & B & C). fold m2 in A, B, C.
-  destruct (frame_fold_dropped f dropped m2) as (A' & B' & C').
-  rewrite A', B', A, B. repeat split; auto.
-  intros q. rewrite view_fold_dropped.
-  2:{ unfold dropped. apply NoDup_filter. now apply nodup_owned. }
-  unfold dropped. rewrite memZ_filter, mem_owned by assumption.
-  unfold m2. rewrite view_fold_load_policy by assumption.
-  change (view_of m1 q) with (view_of m q).
-  unfold v_loadfile. rewrite memZ_keys_get.
-  destruct (get q ds) as [d|]; simpl.
-  - reflexivity.
-  - reflexivity.
+  destruct purge.
+  - set (stale := filter (fun p => negb (memZ p (keys ds))) (keys (st_cache m2))).
+    set (m3 := fold_left (fun m p => disassociate p f m) stale m2).
+    destruct (frame_fold_disassociate f stale m2) as (A3 & B3 & C3). fold m3 in A3, B3, C3.
+    destruct (frame_fold_restore dropped m3) as (A' & B' & C').
+    assert (Hw3 : wfm m3) by (unfold wfm; rewrite A3; now apply C).
+    rewrite A', B', B3, C3, A, B. repeat split; auto.
+    intros q. rewrite view_fold_restore by assumption.
+    unfold dropped. rewrite memZ_filter, mem_owned by assumption.
+    unfold m3. rewrite view_fold_disassociate. unfold stale. rewrite memZ_filter.
+    unfold m2. rewrite view_fold_load_policy by assumption.
+    change (view_of m1 q) with (view_of m q).
+    unfold v_loadfile. rewrite !memZ_keys_get.
+    destruct (get q ds) as [d|] eqn:Eg; simpl; [reflexivity|].
+    fold m2.
+    assert (Hd : (if match get q (st_cache m2) with Some _ => true | None => false end
+                  then v_disassoc f (view_of m q) else view_of m q) = v_disassoc f (view_of m q)).
+    { destruct (get q (st_cache m2)) eqn:Ec; [reflexivity|].
+      assert (Hc : get q (st_cache m) = None).
+      { assert (Hv : view_of m2 q = view_of m q).
+        { unfold m2. rewrite view_fold_load_policy by assumption. rewrite Eg. reflexivity. }
+        unfold view_of in Hv. inversion Hv. congruence. }
+      unfold view_of, v_disassoc. rewrite Hc. reflexivity. }
+    rewrite Hd. unfold v_remove.
+    replace (owner_is f (v_disassoc f (view_of m q))) with (owner_is f (view_of m q)).
+    2:{ destruct (view_of m q) as [[s o] c]. reflexivity. }
+    reflexivity.
+  - destruct (frame_fold_dropped f dropped m2) as (A' & B' & C').
+    rewrite A', B', A, B. repeat split; auto.
+    intros q. rewrite view_fold_dropped by assumption.
+    unfold dropped. rewrite memZ_filter, mem_owned by assumption.
+    unfold m2. rewrite view_fold_load_policy by assumption.
+    change (view_of m1 q) with (view_of m q).
+    unfold v_loadfile. rewrite memZ_keys_get.
+    destruct (get q ds) as [d|]; simpl; reflexivity.
 Qed.
 
 (* ---------------------------------------------------------------- the loops over files *)
-Lemma load_loop_spec : forall fs q todo m, wfm m -> wf_fs fs ->
-  let m' := fold_left (load_file fs) todo m in
+Lemma load_loop_spec : forall purge fs q todo m, wfm m -> wf_fs fs ->
+  let m' := fold_left (load_file_gen purge fs) todo m in
   let pl := load_plan fs (st_ts m) todo in
-  view_of m' q = fold_left (vstep q) (fst pl) (view_of m q) /\
+  view_of m' q = fold_left (vstep purge q) (fst pl) (view_of m q) /\
   st_ts m' = snd pl /\ st_files m' = st_files m /\ wfm m'.
 Proof.
-  induction todo as [|f r IH]; intros m Hw Hfs; [simpl; auto|].
+  intros purge fs q. induction todo as [|f r IH]; intros m Hw Hfs; [simpl; auto|].
   simpl fold_left. simpl load_plan.
-  pose proof (load_file_spec fs m f Hw Hfs) as (S & Sf & Sw).
-  specialize (IH (load_file fs m f) Sw Hfs). simpl in IH.
+  pose proof (load_file_spec purge fs m f Hw Hfs) as (S & Sf & Sw).
+  specialize (IH (load_file_gen purge fs m f) Sw Hfs). simpl in IH.
   destruct (get f fs) as [[t content]|] eqn:Ef; destruct (get f (st_ts m)) as [t0|] eqn:Et.
   - destruct (t >? t0).
     + destruct S as (St & Sv). rewrite St in IH.
@@ -381,12 +406,12 @@ Proof.
   - rewrite S in IH. rewrite S. exact IH.
 Qed.
 
-Lemma remove_loop_spec : forall q fsr m, wfm m ->
+Lemma remove_loop_spec : forall purge q fsr m, wfm m ->
   let m' := fold_left (fun m f => remove_file f m) fsr m in
-  view_of m' q = fold_left (vstep q) (map OpRemove fsr) (view_of m q) /\
+  view_of m' q = fold_left (vstep purge q) (map OpRemove fsr) (view_of m q) /\
   st_ts m' = fold_left (fun ts f => del f ts) fsr (st_ts m) /\ st_files m' = st_files m /\ wfm m'.
 Proof.
-  induction fsr as [|f r IH]; intros m Hw; [simpl; auto|].
+  intros purge q. induction fsr as [|f r IH]; intros m Hw; [simpl; auto|].
   simpl. destruct (frame_remove_file f m) as (A & B & C).
   destruct (IH (remove_file f m) (C Hw)) as (I1 & I2 & I3 & I4).
   rewrite I1, I2, I3, A, B, view_remove_file by assumption. auto.
@@ -404,22 +429,22 @@ Qed.
 
 (* scan_policies as a whole: for every name the sequence of file events of the plan,
    which depends on the directory, the time stamps and the file list only *)
-Theorem scan_view : forall fs m q, wfm m -> wf_fs fs ->
+Theorem scan_view : forall purge fs m q, wfm m -> wf_fs fs ->
   let pl := scan_plan fs (st_ts m) (st_files m) in
-  view_of (scan fs m) q = fold_left (vstep q) (fst pl) (view_of m q) /\
-  st_ts (scan fs m) = snd pl /\ st_files (scan fs m) = keys fs /\ wfm (scan fs m).
+  view_of (scan_gen purge fs m) q = fold_left (vstep purge q) (fst pl) (view_of m q) /\
+  st_ts (scan_gen purge fs m) = snd pl /\ st_files (scan_gen purge fs m) = keys fs /\ wfm (scan_gen purge fs m).
 Proof.
-  intros fs m q Hw Hfs. unfold scan, scan_plan.
+  intros purge fs m q Hw Hfs. unfold scan_gen, scan_plan.
   set (added := filter (fun f => negb (memZ f (st_files m))) (keys fs)).
   set (removed := filter (fun f => negb (memZ f (keys fs))) (st_files m)).
   set (m1 := fold_left (fun m f => with_ts (set f 0 (st_ts m)) m) added m).
   destruct (add_loop_spec q added m) as (A1 & A2 & A3 & A4). fold m1 in A1, A2, A3, A4.
   assert (Hw1 : wfm m1) by (unfold wfm; rewrite A4; exact Hw).
   set (m2 := fold_left (fun m f => remove_file f m) removed m1).
-  destruct (remove_loop_spec q removed m1 Hw1) as (B1 & B2 & B3 & B4). fold m2 in B1, B2, B3, B4.
+  destruct (remove_loop_spec purge q removed m1 Hw1) as (B1 & B2 & B3 & B4). fold m2 in B1, B2, B3, B4.
   set (m3 := with_files (keys fs) m2).
   assert (Hw3 : wfm m3) by exact B4.
-  destruct (load_loop_spec fs q (sortZ (keys (st_ts m3))) m3 Hw3 Hfs) as (C1 & C2 & C3 & C4).
+  destruct (load_loop_spec purge fs q (sortZ (keys (st_ts m3))) m3 Hw3 Hfs) as (C1 & C2 & C3 & C4).
   change (st_ts m3) with (st_ts m2) in *. change (view_of m3 q) with (view_of m2 q) in C1.
   rewrite B2, A2 in C1, C2, C3, C4. rewrite B2, A2.
   destruct (load_plan fs _ _) as [ops ts3]. simpl in *.
